@@ -29,8 +29,8 @@ BLOCKS = {
 }
 TRIPLES = {
     'diag': [['P', 'G', 'D'], ['I', 'K', 'Q'], ['R', 'P', 'W'], ['D', 'D2', 'K'], ['It2', 'P', 'Bk'], ['Rt', 'R', 'Hs'], ['Q', 'P', 'D2'], ['D2', 'I', 'D']],
-    'row': [['P', 'Q', 'D'], ['G', 'G2', 'G'], ['Bk', 'P', 'K'], ['I', 'K', 'Q'], ['D', 'D2', 'I']],
-    'col': [['P', 'Q', 'D'], ['G', 'P', 'K'], ['Ck', 'G2', 'I'], ['W', 'W', 'W'], ['D2', 'D', 'Q']],
+    'row': [['R', 'Rt', 'R'], ['P', 'Q', 'D'], ['G', 'G2', 'G'], ['Bk', 'P', 'K'], ['I', 'K', 'Q'], ['D', 'D2', 'I']],
+    'col': [['Rt', 'R', 'Rt'], ['P', 'Q', 'D'], ['G', 'P', 'K'], ['Ck', 'G2', 'I'], ['W', 'W', 'W'], ['D2', 'D', 'Q']],
 }
 
 
